@@ -73,6 +73,11 @@ CLAIMED = {
             "A late message of epoch e is decrypted (true sender index, payload, AAD) iff e is among the R most recent prior epochs as of the receiver's last write or was entered since that write (model: set on disk after the last write, trimmed to R, plus epochs entered since; a crash discards the second part), the receiver was a member at e on this device, the generation is inside the window and not yet used, and the sender's leaf in the receiver's current tree still carries the signature key it had at e; a vacated or reused leaf must be rejected; a rotated signature key is 'may'. After every write the prior-epoch ids readable through GroupStateStorage::epoch must equal the model's set exactly (older secrets are gone) on both providers; rejected late messages leave the complete state unchanged. One third of the runs keep two groups per party in the same stores (a write for one group must not disturb the other).",
             "trusted: the retention model (DESIGN §6.C19), canonical rosters for the sender-leaf rule",
             "DESIGN.md §6.C19"),
+    "C07": ("exploration",
+            "deterministic simulation of joins: Welcome joiners (tree in extension / out of band, single / per-member Welcome, with and without path, with PSKs, several joiners, interior blanks) and external joiners at every reachable group state; key-package store watched around the joiner's first write; mismatched Welcome / tree / GroupInfo offered as faults; returning members on the same storage",
+            "Every joiner's first epoch state must equal the canonical record of that epoch (C01 oracle) and its exported tree must pass the C08 oracles; it immediately sends a message every member must decrypt and takes part in later commits (bounded liveness). The key package it joined with is still in its store before its first write_to_storage and gone afterwards. Injected mismatches must never yield a group: a Welcome offered to a party none of whose key packages it addresses, a Welcome (without tree extension) offered with the tree of another epoch, a stale GroupInfo offered with the current tree to the external-commit builder. One quarter of the runs let removed members return on the storage that still holds their earlier membership (the recorded finding).",
+            "trusted: the simulator's membership model; last-resort key packages are not exercised (feature not enabled in the build under test); known finding D10 listed in known_findings.json",
+            "DESIGN.md §6.C07"),
 }
 
 NOT_APPLICABLE = {
